@@ -76,6 +76,32 @@ def branch_inputs(rng, tier):
         for tc in (9, 18, 20, 22):
             for code in (0, 0x010, 0x7ff, 0xc38, 0x008, 0x004):
                 b = es_frame(rng, rng.choice((17, 18)), tc); setf(b, 40, 12, code); fr.append(b)
+    # every value of every number the reports print (one report per value, other bits random): selected altitude, QNH,
+    # heading (target state); vertical rate and GNSS difference with both signs, airspeed, magnetic heading (velocity);
+    # 12-bit altitudes; movement and track (surface); identity codes and 13-bit altitudes in a stride that covers all
+    # values over a few seeds
+    def sweep(tc, off, width, values=None, pre=None, dfs=(17, 18)):
+        for v in (values if values is not None else range(1 << width)):
+            b = es_frame(rng, rng.choice(dfs), tc)
+            if pre:
+                pre(b)
+            setf(b, 32 + off, width, v)
+            fr.append(b)
+    sweep(29, 9, 11); sweep(29, 20, 9); sweep(29, 30, 9, pre=lambda b: setf(b, 32 + 29, 1, 1))
+    for st in (1, 3):
+        for sign in (0, 1):
+            sweep(19, 37, 9, pre=lambda b, st=st, sign=sign: (setf(b, 37, 3, st), setf(b, 32 + 36, 1, sign)))
+            sweep(19, 49, 7, pre=lambda b, st=st, sign=sign: (setf(b, 37, 3, st), setf(b, 32 + 48, 1, sign)))
+    sweep(19, 25, 10, pre=lambda b: setf(b, 37, 3, 3)); sweep(19, 14, 10, pre=lambda b: (setf(b, 37, 3, 4), setf(b, 32 + 13, 1, 1)))
+    sweep(rng.choice((9, 12, 18)), 8, 12); sweep(rng.choice((20, 21, 22)), 8, 12, values=range(rng.randrange(4), 4096, 4))
+    sweep(6, 5, 7); sweep(7, 13, 7, pre=lambda b: setf(b, 32 + 12, 1, 1))
+    sweep(28, 11, 13, values=range(rng.randrange(8), 8192, 8))
+    for df in (0, 4, 16, 20):
+        for v in range(rng.randrange(16), 8192, 16):
+            b = rnd_frame(rng, df); setf(b, 19, 13, v); fr.append(b)
+    for df in (5, 21):
+        for v in range(rng.randrange(16), 8192, 16):
+            b = rnd_frame(rng, df); setf(b, 19, 13, v); fr.append(b)
     return gen.as_inputs(fr)
 
 
